@@ -269,6 +269,17 @@ fn handle(ctx: &mut rink_core::Context, req: &J) -> J {
                 Err(e) => json!({"outcome": "err", "error": e}),
             }
         }),
+        "from_duration" => guarded(|| {
+            // total nanoseconds as a decimal string (may exceed i64): split like chrono does
+            let total: i128 = req["ns"].as_str().unwrap().parse().unwrap();
+            let secs = (total / 1_000_000_000) as i64;
+            let sub = (total % 1_000_000_000) as i64;
+            let d = chrono::TimeDelta::try_seconds(secs).expect("seconds in range") + chrono::TimeDelta::nanoseconds(sub);
+            match rink_core::parsing::datetime::from_duration(&d) {
+                Ok(n) => json!({"outcome": "ok", "number": out_number(&n)}),
+                Err(e) => json!({"outcome": "err", "error": e}),
+            }
+        }),
         "lookup" => guarded(|| {
             let name = req["name"].as_str().unwrap();
             json!({"outcome": "ok",
